@@ -126,6 +126,24 @@ def invalid_element(tag, compressed, how, rng):
         P = O.find_point1(rng) if which == 1 else O.find_point2(rng)
         y = (P[1] + 1) % Q if which == 1 else ((P[1][0] + 1) % Q, P[1][1])
         return xb(P[0]) + xb(y)
+    if how == 'isomorphic-curve':
+        # (c^2 x, c^3 y) of a SUBGROUP point: a point of order r on the isomorphic curve y^2 = x^3 + c^6 b.  The group-law formulas never
+        # use b, so the order test passes; only the curve equation rejects it.  Exists in the uncompressed form only.
+        if compressed:
+            return invalid_element(tag, compressed, 'off-curve', rng)
+        k = rng.randrange(1, O.R)
+        if which == 1:
+            P = O.E1.mul(O.G1_GEN, k)
+            c = rng.choice([2, Q - 1 - 1, rng.randrange(2, Q)])
+            if pow(c, 6, Q) == 1:
+                c = 2
+            return xb(P[0] * c * c % Q) + xb(P[1] * pow(c, 3, Q) % Q)
+        P = O.E2.mul(O.G2_GEN, k)
+        c = rng.choice([(2, 0), (0, 1), (1, 1), (rng.randrange(1, Q), rng.randrange(Q))])
+        if O.f2_pow(c, 6) == O.F2_ONE:
+            c = (2, 0)
+        c2 = O.f2_sqr(c)
+        return xb(O.f2_mul(P[0], c2)) + xb(O.f2_mul(P[1], O.f2_mul(c2, c)))
     if how == 'wrong-form':
         n = nf if compressed else 2 * nf
         b = bytearray(rng.getrandbits(8 * n).to_bytes(n, 'big'))
@@ -247,7 +265,7 @@ def worker(sh):
             if len(data) < 6000:
                 pool.setdefault((kind, c), []).append((data, pts, ident))
             if pts and rng.random() < (0.5 if sh.quick else 0.8):
-                for how in ('not-in-subgroup', 'off-curve', 'wrong-form', 'garbage'):
+                for how in ('not-in-subgroup', 'off-curve', 'isomorphic-curve', 'wrong-form', 'garbage'):
                     tag, off, n = rng.choice(pts)
                     if sh.index == 0 or rng.random() < 0.5:
                         bad = invalid_element(tag, bool(c), how, rng)
@@ -305,7 +323,7 @@ def worker(sh):
             A = items[(bi + 1) % len(items)][0]
             cand = pts if (len(pts) <= 6 or not sh.quick) else pts[:5] + [pts[-1]]
             for tag, off, n in cand:
-                how = rng.choice(['not-in-subgroup', 'off-curve', 'garbage'])
+                how = rng.choice(['not-in-subgroup', 'off-curve', 'isomorphic-curve', 'garbage'])
                 bad = B[:off] + invalid_element(tag, bool(c), how, rng) + B[off + n:]
                 stage3.append('unmseq %s %d 3 1 %s 1 %s 1 %s' % (kind, c, A.hex(), bad.hex(), B.hex()))
                 meta3.append((kind, c, 'A,B-bad@%s%d,B' % (tag, off), ident))
